@@ -300,7 +300,9 @@ class Logistic(BaseDatafit):
             X_data, X_indptr, X_indices, len(y)) ** 2 / (4 * len(y))
 
     def value(self, y, w, Xw):
-        return np.log(1. + np.exp(- y * Xw)).sum() / len(y)
+        # log(1 + exp(-z)) = max(-z, 0) + log(1 + exp(-|z|)), which cannot overflow
+        yXw = y * Xw
+        return (np.maximum(-yXw, 0.) + np.log1p(np.exp(-np.abs(yXw)))).sum() / len(y)
 
     def gradient_scalar(self, X, y, w, Xw, j):
         return (- X[:, j] @ (y * sigmoid(- y * Xw))) / len(y)
